@@ -248,7 +248,7 @@ Proof.
     + frames; rewrite Erm; cbn; repeat split; auto; intros; try discriminate; lia.
     + pose proof (next_read_pkt _ _ _ Enr) as Hlt.
       destruct alt; [frames; rewrite Erm; cbn; repeat split; auto; intros; try discriminate; lia|].
-      destruct p as [[ok|]| | | |]; frames; rewrite Erm; cbn; repeat split; auto; intros; try discriminate; lia.
+      destruct p as [[ok|]| | | | |]; frames; rewrite Erm; cbn; repeat split; auto; intros; try discriminate; lia.
     + destruct alt; frames; rewrite Erm; cbn; repeat split; auto; intros; try discriminate; lia.
   - destruct ok; frames; rewrite Erm; cbn; repeat split; auto; intros; try discriminate; lia.
   - destruct (ci_item s), (cancelled s); cbn [negb andb]; try destruct alt;
@@ -261,7 +261,7 @@ Proof.
 Qed.
 
 Lemma mu_step_w : forall fx sc s,
-  let s' := step_w fx s in
+  let s' := step_w fx sc s in
   mu_s s' = mu_s s /\ mu_r sc s' = mu_r sc s /\ mu_m s' = mu_m s /\ mu_e s' = mu_e s /\
   mu_w s' <= mu_w s /\
   ((wmd s = WWait -> done s = true) -> wmd s <> WDone -> mu_w s' < mu_w s).
@@ -280,7 +280,7 @@ Proof.
 Qed.
 
 Lemma mu_step_m : forall fx sc s,
-  let s' := step_m fx s in
+  let s' := step_m fx sc s in
   mu_s s' = mu_s s /\ mu_r sc s' = mu_r sc s /\ mu_w s' = mu_w s /\ mu_e s' = mu_e s /\
   mu_m s' <= mu_m s /\
   ((mmd s = MWait -> all_done s = true) -> mmd s <> MDone -> mu_m s' < mu_m s).
@@ -419,11 +419,11 @@ Proof.
     1-7: exists GW, false; split; [reflexivity|];
          pose proof (mu_step_w fx sc s) as H; cbv zeta in H; unfold mu; cbn [step];
          destruct H as [H1 [H2 [H3 [H4 [H5 H6]]]]];
-         assert (mu_w (step_w fx s) < mu_w s) by (apply H6; [intros; auto|rewrite Ew; discriminate]); lia.
+         assert (mu_w (step_w fx sc s) < mu_w s) by (apply H6; [intros; auto|rewrite Ew; discriminate]); lia.
     exists GM, false; split; [reflexivity|].
     pose proof (mu_step_m fx sc s) as H; cbv zeta in H; unfold mu; cbn [step].
     destruct H as [H1 [H2 [H3 [H4 [H5 H6]]]]].
-    assert (mu_m (step_m fx s) < mu_m s).
+    assert (mu_m (step_m fx sc s) < mu_m s).
     { apply H6. - intros _. unfold all_done. rewrite Esm, Erm, Ew. reflexivity.
       - unfold terminal in Ht. destruct (mmd s); discriminate. }
     lia.
@@ -437,9 +437,9 @@ Definition hinv (s : hst) : Prop :=
   | _ => True
   end.
 
-Lemma hinv_step : forall a r g alt s, hinv s -> hinv (hstep true a r g alt s).
+Lemma hinv_step : forall a st1 st2 r g alt s, hinv s -> hinv (hstep true a st1 st2 r g alt s).
 Proof.
-  intros a r g alt [pc gc hd cl ncl e1 rt ok hm dm km] H. unfold hinv in *. cbn in *.
+  intros a st1 st2 r g alt [pc gc hd cl ncl e1 rt ok hm dm km] H. unfold hinv in *. cbn in *.
   destruct g; cbn.
   - destruct hm as [| | | | |e|e|]; try destruct e; cbn; repeat (brki; cbn; auto).
   - destruct dm; cbn; repeat (brki; cbn; auto).
@@ -452,15 +452,15 @@ Proof.
   - destruct km; cbn; auto.
 Qed.
 
-Theorem handshake_cancel_thm : forall a r sched s,
-  s = hrun true a r sched hinit -> hterminal s = true -> h_pc s = true ->
+Theorem handshake_cancel_thm : forall a st1 st2 r sched s,
+  s = hrun true a st1 st2 r sched hinit -> hterminal s = true -> h_pc s = true ->
   h_closed s = true /\ has_ctx (h_ret s) = true /\ h_ok s = false.
 Proof.
-  intros a r sched s -> Ht Hp.
-  assert (Hall : forall sched s0, hinv s0 -> hinv (hrun true a r sched s0)).
+  intros a st1 st2 r sched s -> Ht Hp.
+  assert (Hall : forall sched s0, hinv s0 -> hinv (hrun true a st1 st2 r sched s0)).
   { induction sched0 as [|[g alt] q IH]; intros s0 H0; cbn [hrun]; auto using hinv_step. }
   specialize (Hall sched hinit I). unfold hinv, hterminal in *.
-  destruct (kmd (hrun true a r sched hinit)); try discriminate. auto.
+  destruct (kmd (hrun true a st1 st2 r sched hinit)); try discriminate. auto.
 Qed.
 
 (* ---------------------------------------------------------------- the code as found: witnesses *)
@@ -468,7 +468,7 @@ Qed.
 Definition rep (n : nat) (g : who) : list (who * bool) := repeat (g, false) n.
 Definition mk_sc (k : qkind) (comp gate : bool) (rows0 : nat) (rounds : list cbr) script cutv wf : scen :=
   {| sc_insert := match k with QSel => false | _ => true end; sc_prog := compile k comp gate rows0 rounds;
-     sc_script := script; sc_cut := cutv; sc_wfault := wf |}.
+     sc_script := script; sc_cut := cutv; sc_wfault := wf; sc_cancel_wfault := false; sc_close_err := false |}.
 
 (* finding 7: a result callback fails; the watcher looks at the context after done is closed and before
    errgroup cancels it: S^10 R^5 W^4 R^3 W^2 M *)
@@ -524,23 +524,23 @@ Qed.
    connection: handshake() returns nil *)
 Definition hsch_w : list (hwho * bool) :=
   repeat (HH, false) 5 ++ [(HEnv, false)] ++ repeat (HD, false) 2 ++ repeat (HH, false) 2 ++ repeat (HD, false) 2 ++ repeat (HK, false) 2.
-Lemma witness_hs : let s := hrun false true HrHello hsch_w hinit in
+Lemma witness_hs : let s := hrun false true false false HrHello hsch_w hinit in
   hterminal s = true /\ h_pc s = true /\ h_closed s = true /\ h_ok s = true.
 Proof. vm_compute. repeat split; reflexivity. Qed.
 (* and: the context ended before the handshake started, the hello goroutine fails first, the watchdog leaves
    through its other select case: the context's error is returned and the connection stays open *)
 Definition hsch_w2 : list (hwho * bool) :=
   [(HEnv, false)] ++ repeat (HH, false) 3 ++ repeat (HD, false) 2 ++ repeat (HK, false) 2.
-Lemma witness_hs2 : let s := hrun false true HrHello hsch_w2 hinit in
+Lemma witness_hs2 : let s := hrun false true false false HrHello hsch_w2 hinit in
   hterminal s = true /\ h_pc s = true /\ h_closed s = false /\ has_ctx (h_ret s) = true.
 Proof. vm_compute. repeat split; reflexivity. Qed.
 
 Theorem handshake_cancel_refuted_thm :
-  ~ (forall a r sched s, s = hrun false a r sched hinit -> hterminal s = true -> h_pc s = true ->
+  ~ (forall a st1 st2 r sched s, s = hrun false a st1 st2 r sched hinit -> hterminal s = true -> h_pc s = true ->
        h_closed s = true /\ has_ctx (h_ret s) = true /\ h_ok s = false).
 Proof.
   intros H. destruct witness_hs as [Ht [Hp [Hc Ho]]].
-  destruct (H true HrHello hsch_w _ eq_refl Ht Hp) as [_ [_ Hx]]. congruence.
+  destruct (H true false false HrHello hsch_w _ eq_refl Ht Hp) as [_ [_ Hx]]. congruence.
 Qed.
 
 (* the scenarios of the real client keep the writer whole *)
@@ -565,6 +565,7 @@ Proof.
       * rewrite <- app_assoc. apply Hl. cbn. reflexivity.
       * rewrite <- app_assoc. apply Hb. cbn. reflexivity.
     + rewrite <- app_assoc. apply Hl. cbn. reflexivity.
+  - destruct gate; cbn; reflexivity.
 Qed.
 
 Lemma pinv_run : forall fx sc sched,
